@@ -12,7 +12,7 @@ namespace Influx.Backup
 def Block.WF (b : Block) : Prop := ∀ p ∈ b.pts, b.lo ≤ p.1 ∧ p.1 ≤ b.hi
 
 def TFile.WF (f : TFile) : Prop :=
-  (∀ b ∈ f.blocks, b.WF) ∧ (f.tombM = none → f.tombs = [])
+  (∀ b ∈ f.blocks, b.WF) ∧ (f.tombM = none → f.tombs = []) ∧ f.blocks ≠ []
 
 structure Shard.Inv (s : Shard) : Prop where
   sorted : SortedFiles s.files
@@ -96,13 +96,13 @@ theorem deleteRange_blocks (f : TFile) (ks : List Key) (lo hi : TS) :
 
 theorem deleteRange_WF (f : TFile) (ks : List Key) (lo hi : TS) (h : f.WF) :
     (f.deleteRange ks lo hi).WF := by
-  refine ⟨by rw [deleteRange_blocks]; exact h.1, ?_⟩
+  refine ⟨by rw [deleteRange_blocks]; exact h.1, ?_, by rw [deleteRange_blocks]; exact h.2.2⟩
   unfold TFile.deleteRange
   split
-  · exact h.2
+  · exact h.2.1
   · dsimp only
     split
-    · exact h.2
+    · exact h.2.1
     · intro hc; simp at hc
 
 /-! ### preservation -/
@@ -114,24 +114,29 @@ theorem Shard.Inv_flush (s : Shard) (h : s.Inv) : s.flush.Inv := by
   unfold Shard.flush
   split
   · exact h
-  · refine ⟨?_, ?_, ?_⟩
-    · show SortedFiles (s.files ++ [_])
-      unfold SortedFiles
-      rw [List.pairwise_append]
-      refine ⟨h.sorted, List.pairwise_singleton _ _, ?_⟩
-      intro a ha b hb
-      simp at hb; subst hb
-      exact Or.inl (h.gens a ha)
-    · intro f hf
-      simp only [List.mem_append, List.mem_singleton] at hf
-      rcases hf with hf | rfl
-      · exact Nat.lt_succ_of_lt (h.gens f hf)
-      · exact Nat.lt_succ_self _
-    · intro f hf
-      simp only [List.mem_append, List.mem_singleton] at hf
-      rcases hf with hf | rfl
-      · exact h.wf f hf
-      · exact ⟨flushBlocks_WF _, fun _ => rfl⟩
+  · split
+    · -- no block: no file (never the case for a non-empty cache)
+      exact ⟨by simpa using h.sorted, fun f hf => Nat.lt_succ_of_lt (h.gens f (by simpa using hf)),
+        fun f hf => h.wf f (by simpa using hf)⟩
+    · next hne =>
+      refine ⟨?_, ?_, ?_⟩
+      · show SortedFiles (s.files ++ [_])
+        unfold SortedFiles
+        rw [List.pairwise_append]
+        refine ⟨h.sorted, List.pairwise_singleton _ _, ?_⟩
+        intro a ha b hb
+        simp at hb; subst hb
+        exact Or.inl (h.gens a ha)
+      · intro f hf
+        simp only [List.mem_append, List.mem_singleton] at hf
+        rcases hf with hf | rfl
+        · exact Nat.lt_succ_of_lt (h.gens f hf)
+        · exact Nat.lt_succ_self _
+      · intro f hf
+        simp only [List.mem_append, List.mem_singleton] at hf
+        rcases hf with hf | rfl
+        · exact h.wf f hf
+        · exact ⟨flushBlocks_WF _, fun _ => rfl, by simpa using hne⟩
 
 theorem Shard.Inv_delete (s : Shard) (h : s.Inv) (ks : List Key) (lo hi : TS) :
     (s.delete ks lo hi).Inv := by
@@ -157,10 +162,10 @@ theorem Shard.Inv_age (s : Shard) (h : s.Inv) (sec : Int) : (s.age sec).Inv := b
     exact h.gens g hg
   · intro f hf
     obtain ⟨g, hg, rfl⟩ := List.mem_map.mp hf
-    refine ⟨(h.wf g hg).1, ?_⟩
+    refine ⟨(h.wf g hg).1, ?_, (h.wf g hg).2.2⟩
     intro hn
     simp only [Option.map_eq_none_iff] at hn
-    exact (h.wf g hg).2 hn
+    exact (h.wf g hg).2.1 hn
 
 theorem maxGenSeq_gen_mem (fs : List TFile) (hne : fs ≠ []) :
     ∃ f ∈ fs, f.gen = (maxGenSeq fs).1 := by
@@ -195,14 +200,15 @@ theorem Shard.Inv_compact (s : Shard) (h : s.Inv) : s.compact.Inv := by
     simp only []
     split
     · exact ⟨List.Pairwise.nil, by simp, by simp⟩
-    · refine ⟨List.pairwise_singleton _ _, ?_, ?_⟩
+    · next hbs =>
+      refine ⟨List.pairwise_singleton _ _, ?_, ?_⟩
       · intro f hf
         simp at hf; subst hf
         show (maxGenSeq s.files).1 < s.nextGen
         rw [← hgg]; exact h.gens g hg
       · intro f hf
         simp at hf; subst hf
-        exact ⟨compactBlocks_WF _, fun _ => rfl⟩
+        exact ⟨compactBlocks_WF _, fun _ => rfl, by simpa using hbs⟩
 
 theorem Shard.Inv_backup (s : Shard) (h : s.Inv) (since : Option Int) : (s.backup since).1.Inv :=
   Shard.Inv_flush s h
@@ -242,5 +248,29 @@ theorem step_Inv (st : State) (op : Op) (h : st.src.Inv) : (step st op).1.src.In
   | importA ids =>
     simp only [step]; split <;> exact h
   | dump => exact h
+
+/-! ### the flushed shard -/
+
+theorem flush_cache (s : Shard) : s.flush.cache = [] := by
+  unfold Shard.flush
+  split
+  · next h => simpa using h
+  · rfl
+
+theorem flush_abs_files (s : Shard) (k : Key) (t : TS) :
+    s.flush.abs k t = filesLookup s.flush.files k t := by
+  simp [Shard.abs, flush_cache, cacheLookup]
+
+theorem flush_no_tombs (s : Shard) (h : ∀ f ∈ s.files, f.tombs = []) : ∀ f ∈ s.flush.files, f.tombs = [] := by
+  unfold Shard.flush
+  split
+  · exact h
+  · intro f hf
+    simp only [List.mem_append] at hf
+    rcases hf with hf | hf
+    · exact h f hf
+    · split at hf
+      · simp at hf
+      · simp at hf; subst hf; rfl
 
 end Influx.Backup
